@@ -73,6 +73,13 @@ pub uninterp spec fn eff_reanalyze(r: Rest, ws: Option<PV>, file: PV, text: Seq<
 pub uninterp spec fn eff_venv(r: Rest, ws: Option<PV>, root: PV) -> Rest;                       // scan_venv_fixtures
 pub uninterp spec fn eff_imports(r: Rest, ws: Option<PV>, root: PV) -> Rest;                    // scan_imported_fixture_modules
 
+/// which analysis phase 2 runs on a collected file (after fix F-10b): the CLEANING one when the index already holds
+/// entries of the file (a document opened and closed again before the scan got here: closing keeps its entries), else
+/// the fresh one
+pub open spec fn has_entries(r: Rest, c: PV) -> bool { r.file_definitions.m().contains_key(c) || r.usages.m().contains_key(c) }
+pub open spec fn eff_analyse(r: Rest, ws: Option<PV>, file: PV, text: Seq<char>) -> Rest {
+    if has_entries(r, canon(file)) { eff_reanalyze(r, ws, file, text) } else { eff_fresh(r, ws, file, text) }
+}
 /// the keys of the file cache: the canonical paths of the documents whose text the database holds (opened in the
 /// editor, or analysed earlier)
 pub open spec fn cache_keys(r: Rest) -> Set<PV> { r.file_cache.m().dom() }
@@ -80,7 +87,7 @@ pub open spec fn cache_keys(r: Rest) -> Set<PV> { r.file_cache.m().dom() }
 /// editor's buffer stays indexed exactly once — the disk text is neither read nor analysed); otherwise analysed
 /// (fresh) with the text read_to_string returns; a file that cannot be read (or is not UTF-8) contributes nothing
 pub open spec fn op_step(r: Rest, ws: Option<PV>, f: PV) -> Rest {
-    if cache_keys(r).contains(canon(f)) { r } else { match fs_read(f) { Some(t) => eff_fresh(r, ws, f, t), None => r } }
+    if cache_keys(r).contains(canon(f)) { r } else { match fs_read(f) { Some(t) => eff_analyse(r, ws, f, t), None => r } }
 }
 /// (S3) phase 2, sequential reading: the collected files in order
 pub open spec fn op_analyse(r: Rest, ws: Option<PV>, files: Seq<PV>) -> Rest
@@ -129,6 +136,7 @@ impl FixtureDatabase {
     pub fn analyze_file(&mut self, file_path: PathBuf, content: &str)
         ensures final(self).rest() == eff_reanalyze(old(self).rest(), old(self).ws(), pbv(&file_path), content@),
             final(self).workspace_root == old(self).workspace_root,
+            cache_step(old(self).rest(), canon(pbv(&file_path)), final(self).rest()),
     { unimplemented!() }
     /// C5: `&self` — the write to canonical_path_cache (a memo, interior mutability) is not modelled
     #[verifier::external_body]
@@ -360,7 +368,7 @@ pub open spec fn analysed_at(r: Rest, ws: Option<PV>, files: Seq<PV>, i: int) ->
 /// HYPOTHESIS H-key (the clause C1 of the analyze_file_fresh stub, for every state): the analysis stores the text under
 /// the canonical path of the file; nothing else is added to the file cache; no eviction up to MAX_FILE_CACHE_SIZE keys
 pub open spec fn fresh_cache_step() -> bool {
-    forall|r: Rest, ws: Option<PV>, f: PV, t: Seq<char>| cache_step(r, canon(f), #[trigger] eff_fresh(r, ws, f, t))
+    forall|r: Rest, ws: Option<PV>, f: PV, t: Seq<char>| cache_step(r, canon(f), #[trigger] eff_analyse(r, ws, f, t))
 }
 /// the part of the database that belongs to the document with canonical path k: its cached text and its index entries
 /// (definitions / usages / undeclared / imports recorded for k) — abstract
@@ -369,8 +377,8 @@ pub uninterp spec fn doc_part(r: Rest, k: PV) -> Rest;
 /// whose canonical path is not k leaves the part of k alone, as long as k stays in the file cache
 pub open spec fn fresh_frames_other_docs() -> bool {
     forall|r: Rest, ws: Option<PV>, f: PV, t: Seq<char>, k: PV|
-        canon(f) != k && cache_keys(r).contains(k) && cache_keys(eff_fresh(r, ws, f, t)).contains(k)
-            ==> #[trigger] doc_part(eff_fresh(r, ws, f, t), k) == doc_part(r, k)
+        canon(f) != k && cache_keys(r).contains(k) && cache_keys(eff_analyse(r, ws, f, t)).contains(k)
+            ==> #[trigger] doc_part(eff_analyse(r, ws, f, t), k) == doc_part(r, k)
 }
 /// every canonical path the run can put into the file cache, together with what is there at the start
 pub open spec fn key_universe(r: Rest, files: Seq<PV>) -> Set<PV> { cache_keys(r).union(files.map_values(canon_fn()).to_set()) }
@@ -402,7 +410,7 @@ proof fn lemma_keys_grow(r: Rest, ws: Option<PV>, files: Seq<PV>, i: int, j: int
         let c = canon(f);
         assert(u.contains(c)) by { assert(files.map_values(canon_fn())[j - 1] == c); }
         if !cache_keys(s0).contains(c) && fs_read(f) is Some {
-            let s1 = eff_fresh(s0, ws, f, fs_read(f)->0);
+            let s1 = eff_analyse(s0, ws, f, fs_read(f)->0);
             assert(cache_step(s0, c, s1));
             assert(cache_keys(s0).insert(c).subset_of(u));
             vstd::set_lib::lemma_len_subset(cache_keys(s0).insert(c), u);
@@ -455,7 +463,7 @@ pub proof fn lemma_C10_each_selected_file_analysed_at_most_once(r: Rest, ws: Opt
         let c = canon(files[i]);
         let s0 = state_at(r, ws, files, i);
         lemma_take_step(r, ws, files, i);
-        let s1 = eff_fresh(s0, ws, files[i], fs_read(files[i])->0);
+        let s1 = eff_analyse(s0, ws, files[i], fs_read(files[i])->0);
         assert(state_at(r, ws, files, i + 1) == s1);
         lemma_keys_grow(r, ws, files, i, i);
         assert(cache_step(s0, c, s1));
@@ -489,7 +497,7 @@ proof fn lemma_keys_from(r: Rest, ws: Option<PV>, files: Seq<PV>, j: int, c: PV)
         let s0 = state_at(r, ws, files, j - 1);
         let f = files[j - 1];
         if !cache_keys(s0).contains(canon(f)) && fs_read(f) is Some {
-            assert(cache_step(s0, canon(f), eff_fresh(s0, ws, f, fs_read(f)->0)));
+            assert(cache_step(s0, canon(f), eff_analyse(s0, ws, f, fs_read(f)->0)));
         }
     }
 }
@@ -530,7 +538,7 @@ proof fn canary_unreadable_file_aborts(r: Rest, ws: Option<PV>, a: Seq<PV>, bad:
 /// the OLD behaviour: every readable collected file is analysed, open in the editor or not
 proof fn canary_every_readable_file_is_analysed(r: Rest, ws: Option<PV>, f: PV)
     requires fs_read(f) is Some
-    ensures op_analyse(r, ws, seq![f]) == eff_fresh(r, ws, f, fs_read(f)->0)
+    ensures op_analyse(r, ws, seq![f]) == eff_analyse(r, ws, f, fs_read(f)->0)
 {
     assert(seq![f].drop_last() =~= Seq::<PV>::empty()); assert(seq![f].last() == f);
     reveal_with_fuel(op_analyse, 3);
@@ -565,5 +573,21 @@ proof fn canary_reanalyze_is_fresh(r: Rest, ws: Option<PV>, f: PV, t: Seq<char>)
 proof fn canary_missing_root_scans(r: Rest, root: PV, pats: Seq<Seq<char>>)
     requires !fs_exists(root) ensures op_scan(r, root, pats) == eff_imports(eff_venv(r, Some(op_stored_root(root)), root), Some(op_stored_root(root)), root) {}
 
+/// C10 / C06 (after fix F-10b): a collected file that is NOT open but whose index entries are still there (opened and closed
+/// again before the scan reached it) gets the CLEANING analysis of its disk text — its stale entries are replaced, not
+/// added to; a file the index does not know gets the fresh analysis; an open document is left alone.
+//@tags C10 C06
+pub proof fn lemma_C10_closed_document_is_reanalysed(r: Rest, ws: Option<PV>, f: PV, t: Seq<char>)
+    requires !cache_keys(r).contains(canon(f)), fs_read(f) == Some(t),
+    ensures has_entries(r, canon(f)) ==> op_step(r, ws, f) == eff_reanalyze(r, ws, f, t),
+            !has_entries(r, canon(f)) ==> op_step(r, ws, f) == eff_fresh(r, ws, f, t),
+{
+}
+/// vacuity guard: the pre-repair behaviour (fresh analysis over leftover entries) is NOT what the contract says
+pub proof fn canary_C10_closed_document_analysed_fresh(r: Rest, ws: Option<PV>, f: PV, t: Seq<char>)
+    requires !cache_keys(r).contains(canon(f)), fs_read(f) == Some(t), has_entries(r, canon(f)),
+    ensures op_step(r, ws, f) == eff_fresh(r, ws, f, t),
+{
+}
 } // verus!
 fn main() {}
